@@ -11,7 +11,7 @@ def decode(p):
 
 
 SPEC = dict(
-    lean_modules=["Ecal.Props.C04", "Ecal.Props.C04Eval", "Ecal.Props.C04Loops", "Ecal.Props.C04Program", "Ecal.Props.C04Spec", "Ecal.Props.C04SpecEval"],
+    lean_modules=["Ecal.Props.C04", "Ecal.Props.C04Eval", "Ecal.Props.C04Loops", "Ecal.Props.C04Program", "Ecal.Props.C04Spec", "Ecal.Props.C04SpecEval", "Ecal.Props.C04Examples"],
     shards=12,
     rule=("cases = marker programs (x.mark(n) appends to an ordered trace): corpus of the repaired defects; exhaustive "
           "exit kind {fallthrough, break, continue, return, raise E1, raise E2 with detail+data, raise(), runtime error} x "
@@ -63,8 +63,10 @@ META = dict(
                 "2^53 that is the mathematical inclusive range (IEEE-754 exactness is an assumption here: Float is opaque to the Lean "
                 "kernel, NumEmbOn floatOps is not proved); for inexact fractional steps the end can be missed "
                 "(range(0, 0.3, 0.1) gives 0, 0.1, 0.2) — Go and the model agree on it, it is recorded as the reading, not as a deviation. "
-                "NOT proved (loop_range_inclusive_partial): that eval of the call expression `range(...)` inside a for-in node is the "
-                "rangeIter step (evalIdent -> callFunction -> argument evaluation) and that the block leaves the loop's range entry alone. "
+                "eval_range_step: eval of the call expression `range(...)` inside a for-in node IS the rangeIter step on the call site's entry "
+                "(hypotheses: range not shadowed; re-evaluating the arguments leaves the entry alone). NOT proved (loop_range_inclusive_partial): the "
+                "induction over the rounds joining it with loop_range_runs_rangeVals, which needs 'block, binder and arguments leave the loop's "
+                "range entry alone' as an invariant of all of eval. "
                 "break/continue DO cross a call boundary (func b() { break } called in a loop ends the loop): Go = model, generated, "
                 "not excluded by the property text. The `_wf` theorems take node shapes from C07's WellFormed; the C04 driver evaluates "
                 "WellFormed on every tree it runs. eval-level theorems keep scope creation as a hypothesis (newChild_ok shows it always holds)."),
